@@ -45,10 +45,14 @@ def check_aes_window(ctx, case):
     win = np.array([f[4 * col_in:4 * (col_in + nk)] for f in full], dtype='uint8')
     arg = _as_arg(case, win[0] if single else win)
     a0 = arg.copy()
-    kw = {'col_in': col_in}
+    # the column indexes as Python ints or as numpy integer scalars (what a loop over numpy.arange hands over); derived from the case
+    from vlib.core import digest
+    ikind = [None, None, 'int64', 'uint8', 'uint64', 'int32'][digest(case)[2] % 6]
+    conv = (lambda v: v) if ikind is None else (lambda v: np.dtype(ikind).type(v))
+    kw = {'col_in': conv(col_in)}
     if col_out is not None:
-        kw['col_out'] = col_out
-    out = must(case, 'aes.key_expansion(%s)' % kw, aes.key_expansion, arg, **kw)
+        kw['col_out'] = conv(col_out)
+    out = must(case, 'aes.key_expansion(%s%s)' % (kw, '' if ikind is None else ' as numpy.' + ikind), aes.key_expansion, arg, **kw)
     co = TOTAL[ks] if col_out is None else col_out
     if col_in < co:
         lo, hi = col_in, co
@@ -56,7 +60,7 @@ def check_aes_window(ctx, case):
         lo, hi = co, col_in + nk
     exp = np.array([f[4 * lo:4 * hi] for f in (full[:1] if single else full)], dtype='uint8')
     if np.shape(out) != exp.shape or not np.array_equal(out, exp):
-        raise Violation('aes.key_expansion(col_in=%d, col_out=%s) keysize=%d: differs from the true schedule columns [%d,%d)' % (col_in, col_out, ks, lo, hi), case)
+        raise Violation('aes.key_expansion(col_in=%d, col_out=%s%s) keysize=%d: differs from the true schedule columns [%d,%d)' % (col_in, col_out, '' if ikind is None else ', passed as numpy.' + ikind, ks, lo, hi), case)
     if not np.array_equal(arg, a0):
         raise Violation('aes.key_expansion modified its input', case)
     ctx.case(case, col_in > 0 or co <= col_in, ['aes-window', 'keysize:%d' % ks, 'backward' if co <= col_in else 'forward', 'single' if single else 'batch'],
